@@ -296,23 +296,26 @@ Proof. induction l as [|x l IH]; cbn [map]; rewrite ?lsum_cons, ?lsum_nil; [ring
 Lemma lsum_scale_r (a : S) (l : list S) : lsum (map (fun x => (x * a)%K) l) = (lsum l * a)%K.
 Proof. induction l as [|x l IH]; cbn [map]; rewrite ?lsum_cons, ?lsum_nil; [ring|]. rewrite IH. ring. Qed.
 
-(* phasors with more than one element: the product with every field is the pointwise product,
-   a one-element incoming field (the 0-d plane wave) counting as an infinite constant *)
+(* array phasors: the product with every field is the pointwise product, a 0-d incoming field (the plane
+   wave of a fresh Wavefront) counting as an infinite constant *)
+Lemma fsized_not0d (p : field S) : fsized p -> fvalid p /\ is0d (fd p) = false.
+Proof. unfold fsized, FieldP.fvalid. destruct (fd p); [contradiction|]. intros H. now split. Qed.
+
 Lemma mul_row (f : field S) (phs : list (field S)) r c : fvalid f ->
-  (forall p, In p phs -> fvalid p /\ (dsize (fd p) =? 1) = false) ->
+  (forall p, In p phs -> fsized p) ->
   lsum (map (fun p => embed_opt (fmul f p) r c) phs) =
   (embed_const f r c * lsum (map (fun p => embed p r c) phs))%K.
 Proof.
   intros Vf Hp. induction phs as [|p l IH]; cbn [map]; rewrite ?lsum_cons, ?lsum_nil; [ring|].
   rewrite IH by (intros; apply Hp; now right).
-  destruct (Hp p (or_introl eq_refl)) as [Vp Np].
+  destruct (fsized_not0d p (Hp p (or_introl eq_refl))) as [Vp Np].
   rewrite (fmul_embed S Sring f p r c Vf Vp) by (now rewrite Np, Bool.andb_false_r).
   unfold embed_const at 2. rewrite Np. ring.
 Qed.
 
 Theorem mul_fields_pointwise (phs fs : list (field S)) r c :
   (forall f, In f fs -> fvalid f) ->
-  (forall p, In p phs -> fvalid p /\ (dsize (fd p) =? 1) = false) ->
+  (forall p, In p phs -> fsized p) ->
   embed_sum (mul_fields phs fs) r c =
   (lsum (map (fun f => embed_const f r c) fs) * lsum (map (fun p => embed p r c) phs))%K.
 Proof.
@@ -342,42 +345,37 @@ Lemma kofb_true_r (x : S) : (x * kofb true)%K = x. Proof. unfold kofb. ring. Qed
 
 (* the phasor built for one segment of a plane with an array mask *)
 Lemma phasor_array_spec (P : plane S) lam k (m : garr bool) s :
-  attr_compat P (pnr m) (pnc m) -> slice_ok m s -> slice_big s ->
-  exists p, phasor P lam (pnr m) (pnc m) k (MK2 m) s = Ok p /\ fvalid p /\ (dsize (fd p) =? 1) = false /\
+  attr_compat P (pnr m) (pnc m) -> slice_ok m s ->
+  exists p, phasor P lam (pnr m) (pnc m) k (MK2 m) s = Ok p /\ fsized p /\
     forall r c, embed p r c =
       (amp_at (pl_amp P) (r + pnr m / 2) (c + pnc m / 2)
        * phase lam (opd_at (pl_opd P) (r + pnr m / 2) (c + pnc m / 2))
        * kofb (mask_at m (r + pnr m / 2) (c + pnc m / 2)))%K.
 Proof.
-  intros [Ca Co] Hs Hb. destruct s as [|r0 r1 c0 c1]; [contradiction|].
-  destruct Hs as (H1 & H2 & H3 & H4 & Hin). cbn in Hb.
-  assert (Hsz : (pnr m * pnc m =? 1) = false).
-  { apply Z.eqb_neq. intros E. assert (E1 : pnr m = 1) by (destruct (Z.eq_mul_1 _ _ E); lia).
-    rewrite E1 in E. assert (E2 : pnc m = 1) by lia.
-    apply Hb. replace (r1 - r0) with 1 by lia. replace (c1 - c0) with 1 by lia. reflexivity. }
+  intros [Ca Co] Hs. destruct s as [|r0 r1 c0 c1]; [contradiction|].
+  destruct Hs as (H1 & H2 & H3 & H4 & Hin).
   unfold phasor.
   assert (Fin : forall (a : arr S) tl, nr a = r1 - r0 -> nc a = c1 - c0 ->
      (forall i j, r0 <= i < r1 -> c0 <= j < c1 ->
         get a (i - r0) (j - c0) = (amp_at (pl_amp P) i j * phase lam (opd_at (pl_opd P) i j) * kofb (pget m i j))%K) ->
      let p := mkField (D2 (force a)) (fst (slice_offset (SBox r0 r1 c0 c1) (pnr m) (pnc m)))
                       (snd (slice_offset (SBox r0 r1 c0 c1) (pnr m) (pnc m))) tl in
-     fvalid p /\ (dsize (fd p) =? 1) = false /\
+     fsized p /\
      forall r c, embed p r c =
       (amp_at (pl_amp P) (r + pnr m / 2) (c + pnc m / 2)
        * phase lam (opd_at (pl_opd P) (r + pnr m / 2) (c + pnc m / 2))
        * kofb (mask_at m (r + pnr m / 2) (c + pnc m / 2)))%K).
-  { intros a tl Hn Hm Hg p. subst p. split; [|split].
-    - unfold FieldP.fvalid. cbn [fd]. rewrite force_nr, force_nc. lia.
-    - cbn [fd dsize]. rewrite force_nr, force_nc, Hn, Hm. lia.
+  { intros a tl Hn Hm Hg p. subst p. split.
+    - unfold fsized. cbn [fd]. rewrite force_nr, force_nc. lia.
     - intros r c. rewrite box_embed by assumption. set (i := r + pnr m / 2). set (j := c + pnc m / 2).
       unfold mask_at, inr. destr_if.
       + rewrite Hg by lia. replace ((0 <=? i) && (i <? pnr m) && ((0 <=? j) && (j <? pnc m))) with true by lia. reflexivity.
       + destruct ((0 <=? i) && (i <? pnr m) && ((0 <=? j) && (j <? pnc m))) eqn:E; cbn [andb]; [|now rewrite kofb_false_r].
         destruct (pget m i j) eqn:Em; [|now rewrite kofb_false_r].
-        exfalso. clearbody i j. clear Hb Hsz Hg.
+        exfalso. clearbody i j. clear Hg.
         assert (A1 : 0 <= i < pnr m) by lia. assert (A2 : 0 <= j < pnc m) by lia.
         destruct (Hin i j A1 A2 Em) as [B1 B2]. clear Hin. lia. }
-  destruct (pl_amp P) as [v|A] eqn:Ea; destruct (pl_opd P) as [q|o] eqn:Eo; cbn [amp_data opd_data]; rewrite ?Hsz.
+  destruct (pl_amp P) as [v|A] eqn:Ea; destruct (pl_opd P) as [q|o] eqn:Eo; cbn [amp_data opd_data].
   - cbn [rbind dmul]. eexists; split; [reflexivity|]. cbn [dforce nr nc].
     apply Fin; cbn [nr nc get]; try reflexivity. intros i j Hi Hj. cbn [amp_at opd_at].
     replace (i - r0 + r0) with i by ring. replace (j - c0 + c0) with j by ring. ring.
@@ -411,48 +409,72 @@ Proof. reflexivity. Qed.
    amplitude * exp(2 pi i opd / lambda) * (number of segment masks containing the sample) *)
 Lemma phasors_from_spec (P : plane S) lam n m : attr_compat P n m ->
   forall (ms : list (garr bool)) (sl : list pslice) k,
-  Forall2 (fun a s => pnr a = n /\ pnc a = m /\ slice_ok a s /\ slice_big s) ms sl ->
+  Forall2 (fun a s => pnr a = n /\ pnc a = m /\ slice_ok a s) ms sl ->
   exists phs, phasors_from P lam n m k (map MK2 ms) sl = Ok phs /\
-    (forall p, In p phs -> fvalid p /\ (dsize (fd p) =? 1) = false) /\
+    (forall p, In p phs -> fsized p) /\
     forall r c, lsum (map (fun p => embed p r c) phs) =
       (amp_at (pl_amp P) (r + n / 2) (c + m / 2) * phase lam (opd_at (pl_opd P) (r + n / 2) (c + m / 2))
        * cover ms (r + n / 2) (c + m / 2))%K.
 Proof.
-  intros Hc ms sl k H. revert k. induction H as [|a s ms sl (En & Em & Hs & Hb) H IH]; intros k.
+  intros Hc ms sl k H. revert k. induction H as [|a s ms sl (En & Em & Hs) H IH]; intros k.
   - exists []. split; [reflexivity|]. split; [intros p []|]. intros r c. cbn [map cover fold_right]. rewrite lsum_nil. ring.
   - cbn [map phasors_from]. subst n m.
-    destruct (phasor_array_spec P lam k a s Hc Hs Hb) as (p & Ep & Vp & Np & Gp).
+    destruct (phasor_array_spec P lam k a s Hc Hs) as (p & Ep & Vp & Gp).
     destruct (IH (Datatypes.S k)) as (phs & Ephs & Hall & Gs).
     rewrite Ep. cbn [rbind]. rewrite Ephs. cbn [rbind]. exists (p :: phs). split; [reflexivity|]. split.
-    + intros q [<-|Hq]; [now split|now apply Hall].
+    + intros q [<-|Hq]; [assumption|now apply Hall].
     + intros r c. cbn [map]. rewrite lsum_cons, Gs, Gp. rewrite cover_cons0. ring.
 Qed.
 
 
 Lemma plane_phasors_spec (P : plane S) lam n m : plane_ok P n m ->
   exists phs, plane_phasors P lam = Ok phs /\
-    (forall p, In p phs -> fvalid p /\ (dsize (fd p) =? 1) = false) /\
+    (forall p, In p phs -> fsized p) /\
     forall r c, lsum (map (fun p => embed p r c) phs) = transmission P lam n m r c.
 Proof.
-  intros [Hd Hs Hl Ha Hb]. unfold plane_phasors, transmission.
+  intros [Hd Hs Hl Ha]. unfold plane_phasors, transmission.
   assert (F2 : forall ms sl, rmapM boundary_slice ms = Ok sl -> (forall a, In a ms -> pnr a = n /\ pnc a = m) ->
-            Forall slice_big sl ->
-            Forall2 (fun a s => pnr a = n /\ pnc a = m /\ slice_ok a s /\ slice_big s) ms sl).
-  { intros ms sl E. apply rmapM_Forall2 in E. induction E as [|a s ms sl Ea E IH]; intros Hin Hbig; [constructor|].
-    inversion Hbig; subst. constructor.
+            Forall2 (fun a s => pnr a = n /\ pnc a = m /\ slice_ok a s) ms sl).
+  { intros ms sl E. apply rmapM_Forall2 in E. induction E as [|a s ms sl Ea E IH]; intros Hin; [constructor|].
+    constructor.
     - destruct (Hin a (or_introl eq_refl)). repeat split; try assumption. now apply boundary_slice_ok.
-    - apply IH; [intros; apply Hin; now right|assumption]. }
+    - apply IH. intros; apply Hin; now right. }
   destruct (pl_mask P) as [b|a|n0 m0 l] eqn:Em; cbn [plane_dims masks_of plane_slice] in *.
   - discriminate.
   - injection Hd as <- <-.
     destruct (boundary_slice a) as [s|e] eqn:Eb; cbn [rbind] in Hs; [|discriminate]. injection Hs as Hs.
     specialize (F2 [a] [s]). cbn [rmapM rbind] in F2. rewrite Eb in F2. cbn [rbind] in F2.
-    rewrite <- Hs in *. specialize (F2 eq_refl Hl Hb).
+    rewrite <- Hs in *. specialize (F2 eq_refl Hl).
     exact (phasors_from_spec P lam (pnr a) (pnc a) Ha [a] [s] 0%nat F2).
-  - destruct (Nat.eqb (length l) 1); [discriminate|]. injection Hd as <- <-.
-    exact (phasors_from_spec P lam n0 m0 Ha l (pl_slices P) 0%nat (F2 l (pl_slices P) Hs Hl Hb)).
+  - injection Hd as <- <-.
+    exact (phasors_from_spec P lam n0 m0 Ha l (pl_slices P) 0%nat (F2 l (pl_slices P) Hs Hl)).
 Qed.
 
+(* every product with an array phasor is an array field of positive dimensions (never 0-d) *)
+Lemma mul_core_sized (da : arr S) ora oca (db : arr S) orb ocb tl f :
+  0 < nr da -> 0 < nc da -> 0 < nr db -> 0 < nc db -> mul_core da ora oca db orb ocb tl = Some f -> fsized f.
+Proof.
+  intros Ha1 Ha2 Hb1 Hb2. unfold mul_core.
+  destruct da as [an am ag], db as [bn bm bg]. cbn [nr nc get] in *.
+  unfold intersect, intersection_slices, intersection_shift, intersection_extent, array_extent.
+  destr_if; [|discriminate]. intros H. injection H as <-. unfold fsized. cbn [fd]. rewrite force_nr, force_nc. cbn [nr nc]. lia.
+Qed.
+Lemma fmul_sized (a p x : field S) : fvalid a -> fsized p -> fmul a p = Some x -> fsized x.
+Proof.
+  intros Va Vp. unfold fsized in Vp. unfold FieldP.fvalid in Va. unfold fmul, mul_array.
+  destruct a as [[va|da] ora oca ta], p as [[vp|dp] orp ocp tp]; cbn [fd is0d andb same_shape negb dshape dget toarr offr offc ftilt fst snd] in *;
+    try contradiction.
+  - apply mul_core_sized; unfold aconst; cbn [nr nc]; lia.
+  - destruct (negb ((nr da =? nr dp) && (nc da =? nc dp))); cbn [andb]; apply mul_core_sized; lia.
+Qed.
+Lemma mul_fields_sized (phs fs : list (field S)) : (forall f, In f fs -> fvalid f) -> (forall p, In p phs -> fsized p) ->
+  forall x, In x (mul_fields phs fs) -> fsized x.
+Proof.
+  intros Hf Hp x Hx. unfold mul_fields in Hx. apply in_flat_map in Hx. destruct Hx as (f & Hin & Hx).
+  apply in_flat_map in Hx. destruct Hx as (p & Hpin & Hx). unfold keep in Hx.
+  destruct (fmul f p) as [y|] eqn:E; [|contradiction]. destruct Hx as [<-|[]].
+  apply (fmul_sized f p y); [now apply Hf|now apply Hp|exact E].
+Qed.
 
 Lemma ec_sum_lsum (fs : list (field S)) r c : ec_sum fs r c = lsum (map (fun f => embed_const f r c) fs).
 Proof. induction fs as [|f l IH]; [reflexivity|]. cbn [ec_sum fold_right map]. rewrite lsum_cons. f_equal. exact IH. Qed.
@@ -463,52 +485,46 @@ Theorem plane_multiply_spec (P : plane S) (w : pwf S) n m px : plane_ok P n m ->
   exists w', plane_multiply P w = Ok w' /\
     pw_lam w' = pw_lam w /\ pw_pix w' = px /\ pw_shape w' = Some (n, m) /\
     pw_focal w' = (match pl_focal P with Some f => f | None => focal_truthy (pw_focal w) end) /\
+    (forall f, In f (pw_data w') -> fsized f) /\
     forall r c, embed_sum (pw_data w') r c = (ec_sum (pw_data w) r c * transmission P (pw_lam w) n m r c)%K.
 Proof.
   intros Hok Hf Hpx. unfold plane_multiply. rewrite Hpx. cbn [rbind].
   destruct (plane_phasors_spec P (pw_lam w) n m Hok) as (phs & Ephs & Hall & Gs).
-  assert (Hshape : match plane_shape (pl_mask P) with Sh0 => pw_shape w | Sh2 a b => Some (a, b) | Sh3 _ a b => Some (a, b) end = Some (n, m)).
-  { destruct Hok as [Hd _ _ _ _]. destruct (pl_mask P) as [b|a|n0 m0 l]; cbn in *; [discriminate|congruence|].
-    destruct (Nat.eqb (length l) 1); [discriminate|congruence]. }
+  assert (Hshape : match plane_shape (pl_mask P) with Sh0 => pw_shape w | Sh2 a b => Some (a, b) end = Some (n, m)).
+  { destruct Hok as [Hd _ _ _]. destruct (pl_mask P) as [b|a|n0 m0 l]; cbn in *; [discriminate|congruence|congruence]. }
   destruct (pw_data w) as [|f0 fs] eqn:Ed.
   - cbn [rbind]. eexists; split; [reflexivity|]. cbn [pw_lam pw_pix pw_shape pw_focal pw_data].
-    repeat split; try assumption. intros r c. unfold mul_fields. rewrite ec_sum_lsum. cbn [flat_map map]. rewrite embed_sum_nil, lsum_nil. ring.
+    repeat split; try assumption; [intros f []|]. intros r c. unfold mul_fields. rewrite ec_sum_lsum. cbn [flat_map map]. rewrite embed_sum_nil, lsum_nil. ring.
   - rewrite Ephs. cbn [rbind]. eexists; split; [reflexivity|]. cbn [pw_lam pw_pix pw_shape pw_focal pw_data].
-    repeat split; try assumption. intros r c. rewrite mul_fields_pointwise by assumption. rewrite ec_sum_lsum. now rewrite Gs.
+    repeat split; try assumption; [now apply mul_fields_sized|]. intros r c. rewrite mul_fields_pointwise by assumption. rewrite ec_sum_lsum. now rewrite Gs.
 Qed.
 
 (* ---- planes whose three attributes are scalars: one 0-d phasor at the origin ---- *)
 Lemma fmul_scalar_phasor (f : field S) (a : S) tl r c : fvalid f ->
-  ((dsize (fd f) =? 1) = true -> offr f = 0 /\ offc f = 0) ->
+  (is0d (fd f) = true -> offr f = 0 /\ offc f = 0) ->
   embed_opt (fmul f (mkField (D0 a) 0 0 tl)) r c = (embed f r c * a)%K.
 Proof.
-  intros Vf Ho. destruct (dsize (fd f) =? 1) eqn:E.
-  - destruct (Ho eq_refl) as [O1 O2]. unfold fmul. rewrite E. cbn [fd dsize Z.eqb Pos.eqb andb].
+  intros Vf Ho. destruct (is0d (fd f)) eqn:E.
+  - destruct (Ho eq_refl) as [O1 O2]. unfold fmul. rewrite E. cbn [fd is0d andb].
     unfold mul_scalar. cbn [offr offc fd dget]. rewrite O1, O2. cbn [Z.eqb andb embed_opt].
-    destruct f as [[vf|df] orr occ tf]; cbn [fd offr offc dget ftilt] in *; subst orr occ.
-    + rewrite !embed_D0. destr_if; ring.
-    + rewrite !embed_D2. unfold embedA, inr. cbn [nr nc get].
-      unfold FieldP.fvalid in Vf. cbn [fd] in Vf. cbn [dsize] in E.
-      assert (E1 : nr df = 1) by nia. assert (E2 : nc df = 1) by nia. rewrite E1, E2.
-      change (1 / 2) with 0. destr_if; [|ring].
-      replace (r - 0 + 0) with 0 by lia. replace (c - 0 + 0) with 0 by lia. reflexivity.
+    destruct f as [[vf|df] orr occ tf]; cbn [fd offr offc dget ftilt is0d] in *; [|discriminate]. subst orr occ.
+    rewrite !embed_D0. destr_if; ring.
   - rewrite (fmul_embed S Sring f (mkField (D0 a) 0 0 tl) r c Vf I) by (now rewrite E).
-    unfold embed_const. rewrite E. cbn [fd dsize Z.eqb dget]. reflexivity.
+    unfold embed_const. rewrite E. cbn [fd is0d dget]. reflexivity.
 Qed.
 
-
-Theorem plane_multiply_scalar (P : plane S) (w : pwf S) v q px : plane_scalar P v q ->
+Theorem plane_multiply_scalar (P : plane S) (w : pwf S) v q b px : plane_scalar P v q b ->
   (forall f, In f (pw_data w) -> fvalid f) -> origin_consts (pw_data w) ->
   mul_pixelscale (pl_pix P) (pw_pix w) = Ok px ->
   exists w', plane_multiply P w = Ok w' /\
     pw_lam w' = pw_lam w /\ pw_pix w' = px /\ pw_shape w' = pw_shape w /\
     pw_focal w' = (match pl_focal P with Some f => f | None => focal_truthy (pw_focal w) end) /\
-    forall r c, embed_sum (pw_data w') r c = (embed_sum (pw_data w) r c * (v * phase (pw_lam w) q))%K.
+    forall r c, embed_sum (pw_data w') r c = (embed_sum (pw_data w) r c * (v * kofb b * phase (pw_lam w) q))%K.
 Proof.
-  intros (Ea & Eo & (b & Em) & Es) Hf Ho Hpx. unfold plane_multiply. rewrite Hpx. cbn [rbind].
+  intros (Ea & Eo & Em & Es) Hf Ho Hpx. unfold plane_multiply. rewrite Hpx. cbn [rbind].
   unfold plane_phasors. rewrite Em, Es. cbn [phasors_from]. unfold phasor. rewrite Ea, Eo.
   cbn [amp_data opd_data rbind dmul slice_offset dforce plane_shape].
-  set (p := mkField (D0 (v * phase (pw_lam w) q)%K) 0 0 _).
+  set (p := mkField (D0 (v * kofb b * phase (pw_lam w) q)%K) 0 0 _).
   destruct (pw_data w) as [|f0 fs] eqn:Ed.
   - cbn [rbind]. eexists; split; [reflexivity|]. cbn [pw_lam pw_pix pw_shape pw_focal pw_data].
     repeat split. intros r c. unfold mul_fields. cbn [flat_map]. rewrite !embed_sum_nil. ring.
@@ -528,18 +544,18 @@ Proof.
     + intros x Hx. apply Ho. now right.
 Qed.
 
-(* ---- the default plane (amplitude 1, opd 0, no mask) changes nothing ---- *)
+(* ---- the default plane (amplitude 1, opd 0, no mask: the mask derived from the amplitude is 1) changes nothing ---- *)
 Lemma phase_zero lam : kernel_laws S -> @phase S lam 0%Qc = k1.
 Proof. intros Hk. unfold phase. replace (- (0 / lam))%Qc with 0%Qc by (unfold Qcdiv; ring). apply (ke_0 S Hk). Qed.
 
-Theorem default_plane_identity (P : plane S) (w : pwf S) px : kernel_laws S -> plane_scalar P k1 0%Qc ->
+Theorem default_plane_identity (P : plane S) (w : pwf S) px : kernel_laws S -> plane_scalar P k1 0%Qc true ->
   (forall f, In f (pw_data w) -> fvalid f) -> origin_consts (pw_data w) ->
   mul_pixelscale (pl_pix P) (pw_pix w) = Ok px ->
   exists w', plane_multiply P w = Ok w' /\ pw_lam w' = pw_lam w /\ pw_shape w' = pw_shape w /\
     forall r c, embed_sum (pw_data w') r c = embed_sum (pw_data w) r c.
 Proof.
-  intros Hk Hs Hf Ho Hpx. destruct (plane_multiply_scalar P w k1 0%Qc px Hs Hf Ho Hpx) as (w' & E & L & _ & Sh & _ & G).
-  exists w'. repeat split; try assumption. intros r c. rewrite G, phase_zero by assumption. ring.
+  intros Hk Hs Hf Ho Hpx. destruct (plane_multiply_scalar P w k1 0%Qc true px Hs Hf Ho Hpx) as (w' & E & L & _ & Sh & _ & G).
+  exists w'. repeat split; try assumption. intros r c. rewrite G, phase_zero by assumption. unfold kofb. ring.
 Qed.
 
 (* ---- what the transmission is: the phasor inside the mask, zero outside ---- *)
@@ -581,8 +597,8 @@ Theorem plane_multiply_same_transmission (P1 P2 : plane S) (w1 w2 : pwf S) n m p
     forall r c, embed_sum (pw_data w1') r c = embed_sum (pw_data w2') r c.
 Proof.
   intros H1 H2 Hf1 Hf2 Hl He Ht Hp1 Hp2.
-  destruct (plane_multiply_spec P1 w1 n m px1 H1 Hf1 Hp1) as (w1' & E1 & L1 & _ & S1 & _ & G1).
-  destruct (plane_multiply_spec P2 w2 n m px2 H2 Hf2 Hp2) as (w2' & E2 & L2 & _ & S2 & _ & G2).
+  destruct (plane_multiply_spec P1 w1 n m px1 H1 Hf1 Hp1) as (w1' & E1 & L1 & _ & S1 & _ & _ & G1).
+  destruct (plane_multiply_spec P2 w2 n m px2 H2 Hf2 Hp2) as (w2' & E2 & L2 & _ & S2 & _ & _ & G2).
   exists w1', w2'. split; [assumption|]. split; [assumption|]. split; [congruence|]. split; [congruence|].
   intros r c. rewrite G1, G2, He, <- Hl, Ht. reflexivity.
 Qed.
@@ -608,43 +624,61 @@ Proof.
   intros r c. now apply partition_transmission.
 Qed.
 
-(* chains: as long as no step produces a one-element field (recorded finding), the wavefronts stay equivalent *)
+(* chains of planes *)
 Lemma lsum_map_ext_in {A} (e1 e2 : A -> S) (l : list A) :
   (forall f, In f l -> e1 f = e2 f) -> lsum (map e1 l) = lsum (map e2 l).
 Proof. intros H. induction l as [|x l IH]; cbn [map]; [reflexivity|]. rewrite !lsum_cons.
   rewrite IH by (intros; apply H; now right). now rewrite H by now left. Qed.
-Lemma no_ones_ec (fs : list (field S)) r c : no_ones fs -> ec_sum fs r c = embed_sum fs r c.
+(* array fields: nothing is read as a constant *)
+Lemma sized_ec (fs : list (field S)) r c : (forall f, In f fs -> fsized f) -> ec_sum fs r c = embed_sum fs r c.
 Proof. intros H. rewrite ec_sum_lsum. rewrite embed_sum_lsum by exact Sring. apply lsum_map_ext_in. intros f Hf.
-  unfold embed_const. destruct (H f Hf) as [_ ->]. reflexivity. Qed.
-
+  unfold embed_const. destruct (fsized_not0d f (H f Hf)) as [_ ->]. reflexivity. Qed.
 
 Lemma plane_multiply_ok_pix (P : plane S) w w' : plane_multiply P w = Ok w' ->
   exists px, mul_pixelscale (pl_pix P) (pw_pix w) = Ok px.
 Proof. unfold plane_multiply. destruct (mul_pixelscale (pl_pix P) (pw_pix w)) as [px|e]; [now exists px|discriminate]. Qed.
 
 Theorem chain_same_optics (ps1 ps2 : list (plane S)) : Forall2 same_optics ps1 ps2 ->
-  forall w1 w2 w1' w2', wf_equiv w1 w2 -> regular_chain ps1 w1 w1' -> regular_chain ps2 w2 w2' -> wf_equiv w1' w2'.
+  forall w1 w2 w1' w2', wf_equiv w1 w2 -> chain_multiply ps1 w1 = Ok w1' -> chain_multiply ps2 w2 = Ok w2' -> wf_equiv w1' w2'.
 Proof.
   intros H. induction H as [|P1 P2 ps1 ps2 (Epx & Efo & n & m & O1 & O2 & HT) H IH]; intros w1 w2 w1' w2' He R1 R2.
-  - inversion R1; inversion R2; subst. exact He.
-  - inversion R1 as [|? ? ? a ? M1 N1 T1]; inversion R2 as [|? ? ? b ? M2 N2 T2]; subst.
+  - cbn in R1, R2. injection R1 as <-. injection R2 as <-. exact He.
+  - cbn [chain_multiply] in R1, R2.
+    destruct (plane_multiply P1 w1) as [a|e1] eqn:M1; cbn [rbind] in R1; [|discriminate].
+    destruct (plane_multiply P2 w2) as [b|e2] eqn:M2; cbn [rbind] in R2; [|discriminate].
     apply (IH a b); try assumption.
     destruct He as (El & Esh & Epix & Efoc & V1 & V2 & Ee).
     destruct (plane_multiply_ok_pix _ _ _ M1) as (px1 & Hp1). destruct (plane_multiply_ok_pix _ _ _ M2) as (px2 & Hp2).
-    destruct (plane_multiply_spec P1 w1 n m px1 O1 V1 Hp1) as (a' & Ea & La & Pa & Sa & Fa & Ga).
-    destruct (plane_multiply_spec P2 w2 n m px2 O2 V2 Hp2) as (b' & Eb & Lb & Pb & Sb & Fb & Gb).
+    destruct (plane_multiply_spec P1 w1 n m px1 O1 V1 Hp1) as (a' & Ea & La & Pa & Sa & Fa & Za & Ga).
+    destruct (plane_multiply_spec P2 w2 n m px2 O2 V2 Hp2) as (b' & Eb & Lb & Pb & Sb & Fb & Zb & Gb).
     rewrite M1 in Ea. injection Ea as <-. rewrite M2 in Eb. injection Eb as <-.
     assert (px1 = px2) by (rewrite Epx, Epix in Hp1; congruence).
     split; [congruence|]. split; [congruence|]. split; [congruence|]. split; [rewrite Fa, Fb, Efo, Efoc; reflexivity|].
-    split; [intros f Hf; now apply N1|]. split; [intros f Hf; now apply N2|].
-    intros r c. rewrite !no_ones_ec by assumption. rewrite Ga, Gb, Ee, <- El. now rewrite HT.
+    split; [intros f Hf; now apply fsized_valid, Za|]. split; [intros f Hf; now apply fsized_valid, Zb|].
+    intros r c. rewrite !sized_ec by assumption. rewrite Ga, Gb, Ee, <- El. now rewrite HT.
 Qed.
 
-(* a chain of segmented planes against the chain of their monolithic counterparts *)
+(* array planes leave array fields behind *)
+Lemma chain_multiply_sized (ps : list (plane S)) : (forall P, In P ps -> exists n m, plane_ok P n m) -> ps <> [] ->
+  forall w w', (forall f, In f (pw_data w) -> fvalid f) -> chain_multiply ps w = Ok w' -> forall f, In f (pw_data w') -> fsized f.
+Proof.
+  induction ps as [|P ps IH]; intros Hok Hne w w' Hf R; [congruence|]. cbn [chain_multiply] in R.
+  destruct (plane_multiply P w) as [a|e] eqn:M; cbn [rbind] in R; [|discriminate].
+  destruct (Hok P (or_introl eq_refl)) as (n & m & O).
+  destruct (plane_multiply_ok_pix _ _ _ M) as (px & Hp).
+  destruct (plane_multiply_spec P w n m px O Hf Hp) as (a' & Ea & _ & _ & _ & _ & Za & _).
+  rewrite M in Ea. injection Ea as <-.
+  destruct ps as [|Q ps']; [cbn in R; injection R as <-; exact Za|].
+  apply (IH (fun X HX => Hok X (or_intror HX)) ltac:(discriminate) a w'); [|exact R].
+  intros f Hf'. now apply fsized_valid, Za.
+Qed.
+
+(* a chain of segmented planes against the chain of their monolithic counterparts: whenever both chains run
+   (i.e. the pixel scales are consistent), all attributes and the plane function are equal *)
 Theorem chain_partition (segs monos : list (plane S)) :
   Forall2 (fun Ps Pm => exists n m, partition_of Ps Pm n m) segs monos ->
   forall w ws wm, (forall f, In f (pw_data w) -> fvalid f) ->
-  regular_chain segs w ws -> regular_chain monos w wm ->
+  chain_multiply segs w = Ok ws -> chain_multiply monos w = Ok wm ->
   pw_lam ws = pw_lam wm /\ pw_shape ws = pw_shape wm /\ pw_pix ws = pw_pix wm /\ pw_focal ws = pw_focal wm /\
   forall r c, ec_sum (pw_data ws) r c = ec_sum (pw_data wm) r c.
 Proof.
@@ -659,6 +693,29 @@ Proof.
   - repeat split; try assumption; reflexivity.
   - repeat split; assumption.
 Qed.
+
+(* the monolithic chain runs whenever the segmented one does *)
+Lemma chain_runs_together (l1 l2 : list (plane S)) :
+  Forall2 (fun Ps Pm => exists n m, partition_of Ps Pm n m) l1 l2 ->
+  forall (u v u' : pwf S), pw_pix u = pw_pix v -> (forall f, In f (pw_data u) -> fvalid f) ->
+  (forall f, In f (pw_data v) -> fvalid f) -> chain_multiply l1 u = Ok u' -> exists v', chain_multiply l2 v = Ok v'.
+Proof.
+  intros F. induction F as [|Qs Qm t1 t2 (n & m & Hq) F IH]; intros u v u' Epx Hu Hv R.
+  - exists v. reflexivity.
+  - cbn [chain_multiply] in *. destruct (plane_multiply Qs u) as [a|e] eqn:M; cbn [rbind] in R; [|discriminate].
+    destruct (plane_multiply_ok_pix _ _ _ M) as (px & Hpx).
+    pose proof Hq as (E1 & _ & _ & _ & O1 & O2 & _).
+    assert (Hpx2 : mul_pixelscale (pl_pix Qm) (pw_pix v) = Ok px) by (rewrite <- E1, <- Epx; exact Hpx).
+    destruct (plane_multiply_spec Qs u n m px O1 Hu Hpx) as (a' & Ea & _ & Pa & _ & _ & Za & _).
+    destruct (plane_multiply_spec Qm v n m px O2 Hv Hpx2) as (b & Eb & _ & Pb & _ & _ & Zb & _).
+    rewrite M in Ea. injection Ea as <-. rewrite Eb. cbn [rbind].
+    apply (IH a b u'); try assumption; [congruence| |]; intros f Hf; apply fsized_valid; auto.
+Qed.
+Theorem chain_partition_runs (segs monos : list (plane S)) :
+  Forall2 (fun Ps Pm => exists n m, partition_of Ps Pm n m) segs monos ->
+  forall w ws, (forall f, In f (pw_data w) -> fvalid f) ->
+  chain_multiply segs w = Ok ws -> exists wm, chain_multiply monos w = Ok wm.
+Proof. intros H w ws Hf R. exact (chain_runs_together segs monos H w w ws eq_refl Hf Hf R). Qed.
 
 (* ---- Plane.__init__ ---- *)
 Theorem plane_init_spec (nz : S -> bool) amp opd mask pix foc tl (P : plane S) :
